@@ -74,7 +74,7 @@ func loadVerifier(root string) (*Verifier, error) {
 
 // initialState creates symbolic parameters and an unconstrained heap.
 func (x *Exec) initialState(fn *ssa.Function, prefix string) (*State, []Val) {
-	st := &State{cells: map[*ssa.Alloc]Val{}, mem: map[string]string{}, epoch: "0", pc: "true"}
+	st := &State{cells: map[*ssa.Alloc]Val{}, mem: map[string]string{}, epoch: "0", pc: "true", nm: prefix}
 	var params []Val
 	var facts []string
 	for _, p := range fn.Params {
@@ -147,7 +147,7 @@ func (v *Verifier) stabilize(gen func(mustWrap map[string]bool) *Exec) *Exec {
 		if len(ranges) == 0 {
 			return x
 		}
-		solveAll(ranges, v.vcDir, v.rangeTimeout, false, v.workers)
+		solveBatch(ranges, v.vcDir, v.rangeTimeout*1000)
 		n := 0
 		for _, o := range ranges {
 			if o.Status != "proved" {
@@ -186,6 +186,9 @@ func (v *Verifier) verifyFunc(fc *FuncContract) []*Exec {
 func (v *Verifier) genFunc(fc *FuncContract, fn *ssa.Function, combo []int64, mustWrap map[string]bool) *Exec {
 	x := newExec(v, fc.Pkg, fc.Key, "")
 	x.mustWrap = mustWrap
+	for _, r := range fc.Reveal {
+		x.reveal[r] = true
+	}
 	var labels []string
 	for i, sp := range fc.Splits {
 		labels = append(labels, fmt.Sprintf("%s=%d", sp.Var, combo[i]))
@@ -302,6 +305,9 @@ func (v *Verifier) genPair(p *Pair, combo []int64, mustWrap map[string]bool) *Ex
 	x := newExec(v, p.Pkg, "pair:"+p.Name, "")
 	x.noSafety = true
 	x.mustWrap = mustWrap
+	for _, r := range p.Reveal {
+		x.reveal[r] = true
+	}
 	var labels []string
 	for i, sp := range p.Splits {
 		labels = append(labels, fmt.Sprintf("%s=%d", sp.Var, combo[i]))
@@ -392,6 +398,9 @@ func (v *Verifier) verifyLemma(l *Lemma) []*Exec {
 	var out []*Exec
 	for _, combo := range v.splitCombos(l.Splits) {
 		x := newExec(v, l.Pkg, "lemma:"+l.Name, "")
+		for _, r := range l.Reveal {
+			x.reveal[r] = true
+		}
 		var labels []string
 		for i, sp := range l.Splits {
 			labels = append(labels, fmt.Sprintf("%s=%d", sp.Var, combo[i]))
